@@ -82,6 +82,17 @@ CLAIMED["C17"] = dict(
     technique="contract-based deductive verification: coupling invariant per handler over the real AST, z3",
     design="DESIGN.md §3 C17")
 
+CLAIMED["C03"] = dict(
+    text="For every page/slide/sheet/chapter content type the real iterate_units is proved, over a list of symbolic length, to yield exactly "
+         "one unit per element, in order, numbered by 1-based position (loop invariant over the yielded prefix), and get_full_text equals the "
+         "stripped newline-join of the unit texts for the eleven formats of the statement; construction sites (PPT slide building, RTF pages) "
+         "by symbolic execution, the others and the heading-section numbering by AST dataflow.",
+    note="Assumed: fields of the content dataclasses hold values of their declared types; str.strip/join over symbolic sequences and re.sub "
+         "uninterpreted; PPT record parsers return anything well-typed. Coverage of the body by heading-section units (docx/doc/odt) is NOT claimed; "
+         "'unit k holds page k's text' for PDF/EPUB only as dataflow from the library call.",
+    technique="contract-based deductive verification: loop invariants over yielded prefixes of symbolic-length lists on the real AST, z3; AST dataflow for construction sites",
+    design="DESIGN.md §3 C03")
+
 PENDING = {}
 
 ALL = [f"C{i:02d}" for i in range(1, 21)]
